@@ -44,6 +44,7 @@ def config_large():
         halves = 2 if md["kind"] == "full" else 1
         md["nyh"] = int(np.ceil(panels / ((md["nx"] - 1) * halves))) + 1
         md["side"]["b"] = max(md["side"]["b"], 8.0)
+        md["span_blend"] = min(md["span_blend"], 0.5)  # no 1e-4-span tip strips: their round-off amplification is not the subject
         return dict(surfaces=[{"mesh": md}], flow=draw(S.flow(beta=md["kind"] == "full", rot=True)))
 
     return _c()
@@ -77,6 +78,10 @@ def verdict(desc):
     ref = ref_vlm.solve(meshes, syms, fl["alpha"], fl["beta"], v, rho, omega=fl.get("omega"), cg=fl.get("cg"))
     N = ref["G"].size
     vscale = max(float(np.max(np.abs(ref["onset"]))), v)
+    # hundreds of panels with cosine-clustered tip strips (segments 1e-4 of the span): the double-precision round-off of
+    # OpenAeroStruct's own kernels is amplified by coordinate/segment-length; this class exists to expose size-dependent
+    # code paths, which show up at 1e-5 and above
+    RT = 1e-7 if N > 400 else 1e-9
     # 1 invariant
     out.le("residual", np.max(np.abs(mtx @ circ - rhs)), 1e-10 * max(np.max(np.abs(rhs)), 1e-300))
     # 2 reference
@@ -84,20 +89,20 @@ def verdict(desc):
     out.close("ref/force_pts", fpts, ref["lattice"].fpt, rtol=1e-12, atol=1e-13)
     out.close("ref/bound_vecs", bvec, ref["bv"], rtol=1e-12, atol=1e-13)
     out.close("ref/normals", normals, ref["nrm"], rtol=1e-10, scale=1.0)
-    out.close("ref/mtx", mtx, ref["AIC"], rtol=1e-9)
-    out.close("ref/rhs", rhs, ref["rhs"], rtol=1e-9, scale=vscale)
-    out.close("ref/circulations", circ, ref["G"], rtol=1e-9)
-    out.close("ref/horseshoe", hcirc, ref["Gh"], rtol=1e-9, scale=float(np.max(np.abs(ref["G"]))))
-    out.close("ref/force_pts_velocities", fvel, ref["Vloc"], rtol=1e-9)
+    out.close("ref/mtx", mtx, ref["AIC"], rtol=RT)
+    out.close("ref/rhs", rhs, ref["rhs"], rtol=RT, scale=vscale)
+    out.close("ref/circulations", circ, ref["G"], rtol=RT)
+    out.close("ref/horseshoe", hcirc, ref["Gh"], rtol=RT, scale=float(np.max(np.abs(ref["G"]))))
+    out.close("ref/force_pts_velocities", fvel, ref["Vloc"], rtol=RT)
     fscale = max(float(np.max(np.abs(f))) for f in ref["F"])
     for k, f in enumerate(secf):
-        out.close("ref/sec_forces", f, ref["F"][k], rtol=1e-9, scale=fscale)
+        out.close("ref/sec_forces", f, ref["F"][k], rtol=RT, scale=fscale)
     # 3 definition from OAS's own quantities
     Fdef = rho * hcirc[:, None] * np.cross(fvel, bvec)
     out.close("definition/sec_forces", np.concatenate([f.reshape(-1, 3) for f in secf]), Fdef, rtol=1e-10)
     # 4 independent tangency with OAS's circulations
     vn = ref_vlm.normal_velocity(ref["lattice"], circ, ref["onset"])
-    out.le("tangency", np.max(np.abs(vn)), 1e-9 * vscale)
+    out.le("tangency", np.max(np.abs(vn)), RT * vscale)
 
     kinds = [s["mesh"]["kind"] for s in desc["surfaces"]]
     out.label("nsurf=%d" % len(meshes))
